@@ -33,5 +33,172 @@ impl<const A: usize, const L: usize> MarketEnv<A, L> {
     }
 }
 
+use crate::env::verif_proofs::{gen_ev, l2_equal, Ev, EV_ANY};
+use rand::seq::SliceRandom;
+
+/// `MarketEnv::<2, L>::step` with `Market::process_event` replaced by the logging stand-in: the
+/// multi-asset step LOOP in isolation.  Fully symbolic batch (assets, kinds, ids, arguments) and
+/// generator words, two arbitrary books sharing the clock.
+pub fn market_step_loop<const N: usize, const L: usize, const NB: usize>(m: usize, k: usize) {
+    let cfg = LOG1;
+    let p0: Plain<N> = gen_plain::<N>(m, cfg);
+    let mut p1: Plain<N> = gen_plain::<N>(m, cfg);
+    p1.t = p0.t;
+    p1.trading = p0.trading;
+    assume(p0.t < (1u64 << 62));
+    let step_size = any_u64();
+    assume(step_size >= NB as u64 && step_size < (1u64 << 62));
+    let mut evs = [Ev { kind: 1, id: 0, np: None, nv: None }; NB];
+    let mut assets = [0usize; NB];
+    let mut i = 0;
+    while i < NB {
+        evs[i] = gen_ev(m, 1, EV_ANY);
+        assets[i] = if any_bool() { 1 } else { 0 };
+        i += 1;
+    }
+    let (b0, old0) = build_with_log::<N, L>(&p0, cfg.ntrades);
+    let (b1, old1) = build_with_log::<N, L>(&p1, cfg.ntrades);
+    let market: Market<2, L> = Market::verif_from_books([b0, b1]);
+    let mut env: MarketEnv<2, L> = MarketEnv::verif_from_market(step_size, market);
+    // k prior records per asset
+    let mut a = 0;
+    while a < 2 {
+        let mut j = 0;
+        while j < k {
+            let rec: Level2Data<L> = Level2Data {
+                bid_price: any_u32(),
+                ask_price: any_u32(),
+                bid_vol: any_u32(),
+                ask_vol: any_u32(),
+                bid_price_levels: core::array::from_fn(|_| (any_u32(), any_u32())),
+                ask_price_levels: core::array::from_fn(|_| (any_u32(), any_u32())),
+            };
+            env.level_2_data_records[a].append_record(&rec);
+            env.trade_vols[a].push(any_u32());
+            j += 1;
+        }
+        a += 1;
+    }
+    let mut i = 0;
+    while i < NB {
+        let id = (assets[i], evs[i].id);
+        env.transactions.push(match evs[i].kind {
+            0 => Event::New { order_id: id },
+            1 => Event::Cancellation { order_id: id },
+            _ => Event::Modify { order_id: id, new_price: evs[i].np, new_vol: evs[i].nv },
+        });
+        i += 1;
+    }
+    let mut rng = SymRng::new();
+    shuffle_words(&mut rng, NB);
+    rng.strict = true;
+    let mut rng2 = rng;
+
+    env.step(&mut rng);
+
+    let mut pi = [0usize; NB];
+    let mut i = 0;
+    while i < NB {
+        pi[i] = i;
+        i += 1;
+    }
+    pi.shuffle(&mut rng2);
+    vcheck!(env.transactions.is_empty(), "STEP.queue_empty_after_step");
+    vcheck!(env.market.get_time() == p0.t + step_size, "STEP.clock_at_start_plus_step_size");
+    // every instruction was handed to process_event exactly once, in the shuffled order, addressed to
+    // its own asset, at the shared times start+i (i = position in the whole batch, not per asset)
+    let (log, nlog) = bourse_book::verif::market_log();
+    let mut cnt = [0usize; 2];
+    let mut order_ok = true;
+    let mut time_ok = true;
+    let mut i = 0;
+    while i < NB {
+        let a = assets[pi[i]];
+        let e = &evs[pi[i]];
+        if i < nlog {
+            let t = &log[i];
+            let code = e.kind as usize + if e.np.is_some() { 4 } else { 0 } + if e.nv.is_some() { 8 } else { 0 };
+            order_ok &= t.asset == a && t.id == e.id && t.code == code && t.price == e.np.unwrap_or(0) && t.vol == e.nv.unwrap_or(0);
+            time_ok &= t.t == p0.t + i as u64;
+        }
+        cnt[a] += 1;
+        i += 1;
+    }
+    vcheck!(nlog == NB, "STEP.every_instruction_processed_exactly_once");
+    vcheck!(order_ok, "STEP.processing_order_is_the_permutation_the_words_induce_and_arguments_intact");
+    vcheck!(time_ok, "STEP.ith_processed_instruction_stamped_start_plus_i");
+    vcheck!(env.market.get_order_book(0).get_trades().len() == cfg.ntrades && env.market.get_order_book(1).get_trades().len() == cfg.ntrades
+        && old_trades_unchanged(env.market.get_order_book(0), cfg.ntrades, &old0) && old_trades_unchanged(env.market.get_order_book(1), cfg.ntrades, &old1), "STEP.trade_logs_untouched_by_the_loop");
+    let tv = env.market.get_trade_vols();
+    vcheck!(tv[0] == cnt[0] as u32 && tv[1] == cnt[1] as u32, "STEP.trade_vol_counts_only_this_step_per_asset");
+    vcheck!(rng.calls == NB.saturating_sub(1) && !rng.overdrawn, "STEP.draws_exactly_the_shuffle_words");
+    let mut e0 = p0;
+    e0.t = p0.t + step_size;
+    e0.trade_vol = cnt[0] as u32;
+    let mut e1 = p1;
+    e1.t = p0.t + step_size;
+    e1.trade_vol = cnt[1] as u32;
+    vcheck!(table_matches(env.market.get_order_book(0), &e0) && table_matches(env.market.get_order_book(1), &e1), "STEP.applies_nothing_else");
+    // per-asset cache and records
+    let live = env.market.level_2_data();
+    vcheck!(l2_equal(&env.level_2_data[0], &live[0]) && l2_equal(&env.level_2_data[1], &live[1]), "CACHE.level_2_snapshot_equals_live_book_after_step");
+    let mut rec_ok = true;
+    let mut a = 0;
+    while a < 2 {
+        let r = &env.level_2_data_records[a];
+        let b = env.market.get_order_book(a);
+        let (bid, ask) = b.bid_ask();
+        let (bl, al) = (b.bid_levels(), b.ask_levels());
+        rec_ok &= r.prices.0.len() == k + 1 && r.prices.1.len() == k + 1 && r.volumes.0.len() == k + 1 && r.volumes.1.len() == k + 1 && env.trade_vols[a].len() == k + 1;
+        if rec_ok {
+            rec_ok &= r.prices.0[k] == bid && r.prices.1[k] == ask && r.volumes.0[k] == b.bid_vol() && r.volumes.1[k] == b.ask_vol();
+            rec_ok &= env.trade_vols[a][k] == cnt[a] as u32;
+            let mut l = 0;
+            while l < L {
+                rec_ok &= r.volumes_at_levels.0[l].len() == k + 1 && r.volumes_at_levels.1[l].len() == k + 1 && r.orders_at_levels.0[l].len() == k + 1 && r.orders_at_levels.1[l].len() == k + 1;
+                if rec_ok {
+                    rec_ok &= r.volumes_at_levels.0[l][k] == bl[l].0 && r.orders_at_levels.0[l][k] == bl[l].1 && r.volumes_at_levels.1[l][k] == al[l].0 && r.orders_at_levels.1[l][k] == al[l].1;
+                }
+                l += 1;
+            }
+        }
+        a += 1;
+    }
+    vcheck!(rec_ok, "RECORDS.one_faithful_entry_appended_to_every_series_of_every_asset");
+    if NB >= 2 {
+        vcover!(pi[0] == NB - 1 && assets[0] != assets[1], "cover.cross_asset_batch_reordered");
+    }
+    core::mem::forget(env);
+}
+
+// (generic parameters named as in the crate: Kani compares stub signatures nominally)
+impl<const ASSETS: usize, const LEVELS: usize> MarketEnv<ASSETS, LEVELS> {
+    /// Stand-in for `MarketEnv::place_order` in whole-`update` agent harnesses (see
+    /// `Env::verif_log_place_order`): same tick-grid test, fixed-size log, ids (asset, n).
+    pub fn verif_log_place_order(&mut self, asset: AssetIdx, side: Side, vol: Vol, trader_id: TraderId, price: Option<Price>) -> Result<MarketOrderId, OrderError> {
+        use crate::env::verif_proofs::{Placed, NPLACED, PLACED, PLACED_CAP};
+        let tick = self.market.get_order_book(asset).verif_tick();
+        if let Some(p) = price {
+            if p % tick != 0 {
+                return Err(OrderError::PriceError { price: p, tick_size: tick });
+            }
+        }
+        unsafe {
+            let n = NPLACED;
+            if n < PLACED_CAP {
+                PLACED[n] = Placed { asset, bid: matches!(side, Side::Bid), vol, trader: trader_id, price };
+            }
+            NPLACED = n + 1;
+            Ok((asset, n))
+        }
+    }
+}
+
 vharnesses! {
+    #[cfg_attr(kani, kani::unwind(6))]
+    #[cfg_attr(kani, kani::stub(bourse_book::Market::process_event, bourse_book::Market::verif_log_event))]
+    fn market_env_step_loop_b2() { market_step_loop::<2, 2, 2>(1, 0) }
+    #[cfg_attr(kani, kani::unwind(6))]
+    #[cfg_attr(kani, kani::stub(bourse_book::Market::process_event, bourse_book::Market::verif_log_event))]
+    fn market_env_step_loop_b3() { market_step_loop::<2, 2, 3>(1, 0) }
 }
